@@ -24,7 +24,7 @@ _now = time.time
 import z3
 
 __all__ = [
-    "Engine", "ConcreteEngine", "PinnedEngine", "SInt", "SReal", "SBool", "SNum",
+    "Engine", "ConcreteEngine", "PinnedEngine", "SInt", "SReal", "SBool", "SNum", "SFloat",
     "Infeasible", "Inconclusive", "Violation", "Failure", "is_sym", "sand", "sor", "snot", "ite",
     "smin", "smax", "sabs", "to_py", "aeq",
 ]
@@ -134,7 +134,7 @@ def _wrap(g, e):
 
 
 def is_sym(x):
-    return isinstance(x, (SNum, SBool))
+    return isinstance(x, (SNum, SBool, SFloat))
 
 
 class SBool:
@@ -387,6 +387,101 @@ class SReal(SNum):
         return SBool(self.g, z3.ToReal(z3.ToInt(self.e)) == self.e)
 
 
+_F64 = z3.Float64()
+_RNE = z3.RNE()
+
+
+def _lift_fp(x):
+    if isinstance(x, SFloat):
+        return x.e
+    if isinstance(x, bool):
+        return None
+    if isinstance(x, (int, float)):
+        return z3.FPVal(float(x), _F64)
+    return None
+
+
+class SFloat:
+    """IEEE-754 binary64 value (round-to-nearest-even operations): used only for the loop-free kernels where
+    rounding itself is the subject.  A plain python float met by an operation enters as the same double."""
+    __slots__ = ("g", "e")
+
+    def __init__(self, g, e):
+        self.g = g
+        self.e = e
+
+    def __copy__(self):
+        return self
+
+    def __deepcopy__(self, memo):
+        return self
+
+    def _bin(self, o, f, r=False):
+        oe = _lift_fp(o)
+        if oe is None:
+            return NotImplemented
+        a, b = (oe, self.e) if r else (self.e, oe)
+        return SFloat(self.g, f(_RNE, a, b))
+
+    def __add__(self, o): return self._bin(o, z3.fpAdd)
+    def __radd__(self, o): return self._bin(o, z3.fpAdd, True)
+    def __sub__(self, o): return self._bin(o, z3.fpSub)
+    def __rsub__(self, o): return self._bin(o, z3.fpSub, True)
+    def __mul__(self, o): return self._bin(o, z3.fpMul)
+    def __rmul__(self, o): return self._bin(o, z3.fpMul, True)
+    def __truediv__(self, o): return self._bin(o, z3.fpDiv)
+    def __rtruediv__(self, o): return self._bin(o, z3.fpDiv, True)
+    def __neg__(self): return SFloat(self.g, z3.fpNeg(self.e))
+    def __abs__(self): return SFloat(self.g, z3.fpAbs(self.e))
+
+    def _cmp(self, o, f):
+        oe = _lift_fp(o)
+        if oe is None:
+            return NotImplemented
+        return SBool(self.g, f(self.e, oe))
+
+    def __lt__(self, o): return self._cmp(o, z3.fpLT)
+    def __le__(self, o): return self._cmp(o, z3.fpLEQ)
+    def __gt__(self, o): return self._cmp(o, z3.fpGT)
+    def __ge__(self, o): return self._cmp(o, z3.fpGEQ)
+
+    def __eq__(self, o):
+        r = self._cmp(o, z3.fpEQ)
+        return False if r is NotImplemented else r
+
+    def __ne__(self, o):
+        r = self._cmp(o, z3.fpNEQ)
+        return True if r is NotImplemented else r
+
+    def __hash__(self):
+        return 0
+
+    def __float__(self):
+        raise TypeError("symbolic double cannot be read by C code")
+
+    def __repr__(self):
+        return f"SFloat({self.e})"
+
+
+def _fp_value(v):
+    """z3 FP numeral -> python float (exact)."""
+    if z3.is_fp_value(v):
+        if v.isNaN():
+            return float("nan")
+        if v.isInf():
+            return float("-inf") if v.isNegative() else float("inf")
+        if v.isZero():
+            return -0.0 if v.isNegative() else 0.0
+        sgn = -1 if v.isNegative() else 1
+        frac = fractions.Fraction(v.significand_as_long(), 1 << 52)
+        if v.isSubnormal():
+            return float(sgn * frac * fractions.Fraction(1, 1 << 1022))
+        e = v.exponent_as_long(False)
+        scale = fractions.Fraction(2) ** e if e >= 0 else fractions.Fraction(1, 2 ** (-e))
+        return float(sgn * (1 + frac) * scale)
+    raise ValueError(f"not an FP numeral: {v}")
+
+
 # ---- non-forking helpers for oracles ------------------------------------------------------------
 
 def _eng(*xs):
@@ -455,13 +550,15 @@ def to_py(model, x):
     """evaluate a proxy / python value under a model -> python int | Fraction | bool"""
     if isinstance(x, SBool):
         return z3.is_true(model.eval(x.e, model_completion=True))
-    if isinstance(x, SNum):
+    if isinstance(x, (SNum, SFloat)):
         v = model.eval(x.e, model_completion=True)
         return _val(v)
     return x
 
 
 def _val(v):
+    if z3.is_fp_value(v):
+        return _fp_value(v)
     if z3.is_int_value(v):
         return v.as_long()
     if z3.is_rational_value(v):
@@ -531,6 +628,17 @@ class Engine:
             self.solver.add(v < _lift(hi) if hi_strict else v <= _lift(hi))
         self.model = None
         return SReal(self, v)
+
+    def fp(self, name, lo=None, hi=None, hi_strict=False):
+        """a finite IEEE binary64 value (for the rounding add-ons)."""
+        v = self._var(name, _F64)
+        self.solver.add(z3.Not(z3.fpIsNaN(v)), z3.Not(z3.fpIsInf(v)))
+        if lo is not None:
+            self.solver.add(z3.fpGEQ(v, z3.FPVal(float(lo), _F64)))
+        if hi is not None:
+            self.solver.add((z3.fpLT if hi_strict else z3.fpLEQ)(v, z3.FPVal(float(hi), _F64)))
+        self.model = None
+        return SFloat(self, v)
 
     def boolean(self, name):
         """a nondeterministic python bool (forks)."""
@@ -811,6 +919,13 @@ class ConcreteEngine:
             return float(v)
         return fractions.Fraction(v)
 
+    def fp(self, name, lo=None, hi=None, hi_strict=False):
+        v = float(self._get(name, lambda: (self.rng.random() if self.rng else 0.5) * ((hi if hi is not None else 1.0) - (lo or 0.0)) + (lo or 0.0)))
+        if (lo is not None and v < lo) or (hi is not None and (v >= hi if hi_strict else v > hi)):
+            raise Infeasible()
+        self.drawn[name] = v
+        return v
+
     def boolean(self, name):
         return bool(self._get(name, lambda: self.rng.random() < 0.5 if self.rng else False))
 
@@ -869,6 +984,11 @@ class PinnedEngine(Engine):
     def real(self, name, lo=None, hi=None, lo_strict=False, hi_strict=False):
         r = super().real(name, lo, hi, lo_strict, hi_strict)
         self.solver.add(r.e == _lift(_unjson(self.pins[name])))
+        return r
+
+    def fp(self, name, lo=None, hi=None, hi_strict=False):
+        r = super().fp(name, lo, hi, hi_strict)
+        self.solver.add(z3.fpEQ(r.e, z3.FPVal(float(self.pins[name]), _F64)))
         return r
 
     def boolean(self, name):
